@@ -54,6 +54,13 @@ CORPUS = [
     ("def f(a: Qint[2], b: Qint[2]) -> bool:\n    return a != b\n", [["a", "Qint2"], ["b", "Qint2"]], "bool"),
     ("def f(a: bool, b: bool) -> Tuple[bool, bool]:\n    return (a ^ b, a)\n", [["a", "bool"], ["b", "bool"]], ["bool", "bool"]),
     ("def f(a: Tuple[Qint[2], bool]) -> bool:\n    return a[1] and a[0] == 2\n", [["a", ["Qint2", "bool"]]], "bool"),
+    # n-ary operators with 5..10 operands at the top of a return bit
+    ("def f(a: Qint[3], b: Qint[3]) -> bool:\n    return a == 5 and b == 3\n", [["a", "Qint3"], ["b", "Qint3"]], "bool"),
+    ("def f(a: Qint[3], b: Qint[3]) -> bool:\n    return a != 5 or b != 3\n", [["a", "Qint3"], ["b", "Qint3"]], "bool"),
+    ("def f(a: Qint[6]) -> bool:\n    return a == 37\n", [["a", "Qint6"]], "bool"),
+    ("def f(a: Qint[5], b: Qint[5]) -> bool:\n    return a == 21 and b == 10\n", [["a", "Qint5"], ["b", "Qint5"]], "bool"),
+    ("def f(a: Qlist[bool, 7]) -> bool:\n    r = False\n    for x in a:\n        r = r ^ x\n    return r\n", [["a", ["bool"] * 7]], "bool"),
+    ("def f(a: Qlist[bool, 6], b: bool) -> Tuple[bool, bool]:\n    return (a[0] ^ a[1] ^ a[2] ^ a[3] ^ a[4] ^ a[5], any(a) or b)\n", [["a", ["bool"] * 6], ["b", "bool"]], ["bool", "bool"]),
     # nested argument types with elements of different widths (decode_samples spells them in the arguments' types)
     ("def f(t: Tuple[Tuple[bool, Qint[2]], bool]) -> bool:\n    return t[0][0] and t[1] and t[0][1] == 2\n", [["t", [["bool", "Qint2"], "bool"]]], "bool"),
     ("def f(t: Tuple[Tuple[Qint[2], bool], Qint[2]], b: bool) -> Qint[2]:\n    return t[0][0] ^ t[1] if (b ^ t[0][1]) else t[1]\n", [["t", [["Qint2", "bool"], "Qint2"]], ["b", "bool"]], "Qint2"),
